@@ -174,12 +174,26 @@ def run_unit(name, tier):
     # assumption scan versus declared list
     scan = scan_assumptions(src[:-len(CANARY)])
     declared = getattr(unit, "ASSUMED", [])
-    n_declared = sum(a.get("count", 1) for a in declared)
-    out["assumption_scan"] = {"found": len(scan), "declared": n_declared}
-    if len(scan) != n_declared:
-        out["undecided"] = "assumption scan: %d assume/external tokens in generated file, unit declares %d: %s" % (
-            len(scan), n_declared, json.dumps(scan)[:1500])
-        return out
+    if any("keys" in a for a in declared):
+        # keyed mode: every assume/external token must be claimed by an entry through a name on the token's own or next lines
+        lines = src.split("\n")
+        undeclared = []
+        for t in scan:
+            ctx = " ".join(lines[t["line"] - 1:t["line"] + 2])
+            if not any(k in ctx for a in declared for k in a.get("keys", [])):
+                undeclared.append({"line": t["line"], "text": ctx.strip()[:160]})
+        out["assumption_scan"] = {"found": len(scan), "undeclared": len(undeclared)}
+        if undeclared:
+            out["undecided"] = "assumption scan: %d assume/external token(s) not covered by the unit's declared assumptions: %s" % (
+                len(undeclared), json.dumps(undeclared)[:1500])
+            return out
+    else:
+        n_declared = sum(a.get("count", 1) for a in declared)
+        out["assumption_scan"] = {"found": len(scan), "declared": n_declared}
+        if len(scan) != n_declared:
+            out["undecided"] = "assumption scan: %d assume/external tokens in generated file, unit declares %d: %s" % (
+                len(scan), n_declared, json.dumps(scan)[:1500])
+            return out
     out["assumptions"] = [a["what"] for a in declared] + list(getattr(unit, "TRUSTED", []))
     r = verus.run(b["path"], rlimit=getattr(unit, "RLIMIT", 30))
     out["auto_rewrites"] = []
